@@ -1163,3 +1163,7 @@ V("C05", "reverse-map-inverted", I,
   "fires:C05.R2")
 V("C05", "walk-starts-elsewhere", I,
   ("            stack = [self.pid]", "            stack = [self.ppid()]"), "fires:C05.R2")
+V("C16", "as-dict-outside-oneshot", I,
+  ("        with self.oneshot():\n            for name in ls:\n                try:\n                    if name == 'pid':\n                        ret = self.pid\n                    else:\n                        meth = getattr(self, name)\n                        ret = meth()\n                except (AccessDenied, ZombieProcess):\n                    ret = ad_value\n                except NotImplementedError:\n                    # in case of not implemented functionality (may happen\n                    # on old or exotic systems) we want to crash only if\n                    # the user explicitly asked for that particular attr\n                    if attrs:\n                        raise\n                    continue\n                retdict[name] = ret\n",
+   "        for name in ls:\n            try:\n                if name == 'pid':\n                    ret = self.pid\n                else:\n                    meth = getattr(self, name)\n                    ret = meth()\n            except (AccessDenied, ZombieProcess):\n                ret = ad_value\n            except NotImplementedError:\n                if attrs:\n                    raise\n                continue\n            retdict[name] = ret\n"),
+  "fires:C16.R5")
